@@ -1,6 +1,8 @@
 HOOK_COMMITS = []
 NOTES = "Model checking = bounded exhaustive exploration of the real code against reference models; see DESIGN.md. Exit 0 held / 1 violation / >=2 machinery failure."
 ENGINES = [
+    {"name": "vc_gen", "path": "harness/src/engines/vc_gen.rs", "serves_properties": ["C09"],
+     "kind_free_text": "stateless exhaustive enumeration of outputs x settings through generators -> parsers -> validate"},
     {"name": "vc_md", "path": "harness/src/engines/vc_md.rs", "serves_properties": ["C06"],
      "kind_free_text": "stateless exhaustive enumeration of Markdown documents vs reference tokenizer (harness/src/refmodel/mdtok.rs)"},
     {"name": "vc_cram", "path": "harness/src/engines/vc_cram.rs", "serves_properties": ["C07"],
@@ -66,5 +68,10 @@ CHECKS.append(
      "technique": "bounded exhaustive enumeration of Cram documents (all line sequences over 17 line kinds, deeper on an 8-kind core) through the real CramParser vs a reference tokenizer",
      "text": "Every line sequence up to the bound (LF, CRLF, with/without final newline) is parsed by the real CramParser (cram-compat expectation maker): no panic, and Err or exactly one test per indented `$` line with the reference's command, continuations, expectation lines (two spaces removed, other whitespace kept), exit code, title, line number and the Cram default config.",
      "note": "bounded document length; tests directly preceded by orphan body lines are unspecified and not compared; Err always acceptable"})
+CHECKS.append(
+    {"id": "C09", "engine": "vc_gen", "category": "exploration", "design_ref": "DESIGN.md §2 C09",
+     "technique": "bounded exhaustive enumeration of outputs (line sequences over 24 syntax-colliding / binary line kinds) x exit codes x commands x formats x escapers x create/update/convert through the real generators, parsers and validate",
+     "text": "For every enumerated output, exit code, command shape, format, escaper and path the real generator (create, update from a stale document, convert to the other format) writes a document; it must parse with the real parser to exactly one test with the same shell expression, and that test must validate Ok against the very same Output.",
+     "note": "in-process (Output constructed directly); bounded output length (2 / 3 lines) over the stated line alphabet"})
 claimed = {c["id"] for c in CHECKS}
 NOT_APPLICABLE = [{"property_id": p, "reason": "check not built yet (work in progress; planned in DESIGN.md)"} for p in ALL if p not in claimed]
